@@ -66,6 +66,8 @@ func switchPolicy(c *mail.Client, sc *SendScenario, run *SendRun, env *NetEnv) {
 		c.SetTLSPolicy(mail.TLSOpportunistic)
 	case "none":
 		c.SetTLSPolicy(mail.NoTLS)
+	case "implicit":
+		c.SetSSL(true)
 	}
 }
 
